@@ -113,6 +113,17 @@ sulfur typed by this rule alone would get oxygen parameters.  Latent: for `C[S-]
 theorem C20_table_exception : (typeNames.idxOf? "opls_420").bind (lookupLast nbParams) = some (8, 1599940) ∧
     leadingZ "[$([S-][CH3D4])]".toList = [some 16] := by decide +kernel
 
+/-- every name of the name→id dictionary is found again under its id in the id→name dictionary -/
+def idsRoundTrip (tt : List (TypeName × Nat) × List (Nat × TypeName) × Nat) : Bool :=
+  tt.1.all (fun p => ((tt.2.1.find? (·.1 == p.2)).map (·.2)) == some p.1)
+
+/-- **C20 (type ids are a faithful indirection)**: on the bundled rule table, going from a rule to its type name, to the
+numeric id and back to a name returns the rule's own type (the last line with that rule text): the id tables built by
+`_read_smarts_rules` never confuse two types.  (A change that lets two types share an id — e.g. numbering types by the number of
+distinct rules read so far — makes Li+ / Na+ come out as K+.) -/
+theorem C20_type_ids_roundtrip : idsRoundTrip (readTypes (oplsRules.map (·.1))) = true := by
+  decide +kernel
+
 /-- the two rules whose leading primitive is an alternation (`[o,s]`) are typed as oxygen: a sulfur atom matched by them
 alone would receive an oxygen mass — not decided by the table (the oracle checks typed molecules) -/
 theorem C20_alternation_rules :
